@@ -27,7 +27,7 @@ use crate::props::c07::UNITS;
 use crate::refmodel::refarith as ra;
 use crate::refmodel::refzoned as rz;
 use crate::refmodel::wide::*;
-use crate::zones::Zone;
+use crate::zones::{self, Zone};
 use crate::{ensure, fail};
 
 // --- cases ----------------------------------------------------------------------------------------
@@ -692,6 +692,64 @@ fn judge(mode: Mode, sa: i128, x: i128, end: i128, lo: Option<i128>, hi: Option<
     }
 }
 
+/// The tuple shorthands (`(Unit, Date)`, `(Span, &Zoned)`, `(&Span, DateTime)`, ...) are the
+/// `SpanRelativeTo` forms under another spelling: same answer or the same refusal.
+fn shorthand_forms(c: &Case, rf: &Ref, a: Span, b: Span, u: usize) -> CaseResult {
+    fn same_span(x: &Result<Span, jiff::Error>, y: &Result<Span, jiff::Error>) -> bool {
+        match (x, y) {
+            (Ok(p), Ok(q)) => p.fieldwise() == q.fieldwise(),
+            (Err(_), Err(_)) => true,
+            _ => false,
+        }
+    }
+    fn same_f(x: &Result<f64, jiff::Error>, y: &Result<f64, jiff::Error>) -> bool {
+        match (x, y) {
+            (Ok(p), Ok(q)) => p.to_bits() == q.to_bits() || (p.is_nan() && q.is_nan()),
+            (Err(_), Err(_)) => true,
+            _ => false,
+        }
+    }
+    fn same_o(x: &Result<std::cmp::Ordering, jiff::Error>, y: &Result<std::cmp::Ordering, jiff::Error>) -> bool {
+        match (x, y) {
+            (Ok(p), Ok(q)) => p == q,
+            (Err(_), Err(_)) => true,
+            _ => false,
+        }
+    }
+    let unit = UNITS[u];
+    macro_rules! forms {
+        ($r:expr, $rel:expr, $name:expr) => {{
+            let t0 = a.total((unit, $rel));
+            let t1 = a.total((unit, $r));
+            ensure!(same_f(&t0, &t1), "shorthand-differs:total", "{:?}.total(({}, {})) = {t1:?} but with SpanRelativeTo {t0:?}", c.a, UNIT_NAMES[u], $name);
+            let c0 = a.compare((b, $rel));
+            let (c1, c2) = (a.compare((b, $r)), a.compare((&b, $r)));
+            ensure!(same_o(&c0, &c1) && same_o(&c0, &c2), "shorthand-differs:compare", "{:?}.compare(({:?}, {})) = {c1:?} / {c2:?} but with SpanRelativeTo {c0:?}", c.a, c.b, $name);
+            let (s0, d0) = (a.checked_add((b, $rel)), a.checked_sub((b, $rel)));
+            let (s1, s2) = (a.checked_add((b, $r)), a.checked_add((&b, $r)));
+            let (d1, d2) = (a.checked_sub((b, $r)), a.checked_sub((&b, $r)));
+            ensure!(same_span(&s0, &s1) && same_span(&s0, &s2) && same_span(&d0, &d1) && same_span(&d0, &d2), "shorthand-differs:checked_add", "{:?} +/- ({:?}, {}): {s1:?} / {s2:?} / {d1:?} / {d2:?} but with SpanRelativeTo {s0:?} / {d0:?}", c.a, c.b, $name);
+        }};
+    }
+    match rf {
+        Ref::None | Ref::Marker => {}
+        Ref::Civil(_) => {
+            let d = gen::mk_date(c.d.0, c.d.1, c.d.2);
+            if c.refk % 5 == 1 {
+                forms!(d, SpanRelativeTo::from(d), "Date");
+            } else {
+                let dt = d.to_datetime(gen::mk_time(c.t));
+                forms!(dt, SpanRelativeTo::from(dt), "DateTime");
+            }
+        }
+        Ref::Zoned(z, t) => {
+            let zd = Timestamp::from_nanosecond(*t).unwrap().to_zoned(z.tz.clone());
+            forms!(&zd, SpanRelativeTo::from(&zd), "&Zoned");
+        }
+    }
+    Ok(())
+}
+
 // --- total ----------------------------------------------------------------------------------------
 
 fn test_total(c: &Case, cx: &mut Cx) -> CaseResult {
@@ -871,6 +929,7 @@ fn test_compare(c: &Case, cx: &mut Cx) -> CaseResult {
         Some(r) => a.compare((b, r)),
     });
     let what = format!("{:?}.compare({:?}, relative={})", c.a, c.b, refname(&rf));
+    shorthand_forms(c, &rf, a, b, (c.smallest % 10) as usize)?;
     let top = largest_idx(&fa).min(largest_idx(&fb));
     let refuse = match &rf {
         Ref::None if top <= 3 => Some("calendar-unit-without-reference"),
@@ -1202,6 +1261,91 @@ fn strat_case() -> BoxedStrategy<Case> {
         .boxed()
 }
 
+// --- compare with both end points inside one repeated hour ------------------------------------------
+
+/// `r` is placed so that `r + days` lands in (or next to) the wall-clock window of a fold; one span
+/// goes there by calendar days, the other by hours: the two end points can show the same or the
+/// reversed wall-clock reading while their instants are ordered the other way round.
+#[derive(Serialize, Deserialize, Debug, Clone)]
+pub struct FoldCmp {
+    zone_sel: u16,
+    trans_sel: u16,
+    days: u8,
+    x_frac: u16,
+    ma: u16,
+    mb: u16,
+    b_in_hours: bool,
+    negative: bool,
+}
+
+fn strat_fold_cmp() -> BoxedStrategy<FoldCmp> {
+    (any::<u16>(), any::<u16>(), 1u8..=3, any::<u16>(), 0u16..=150, 0u16..=150, any::<bool>(), prop::bool::weighted(0.2))
+        .prop_map(|(zone_sel, trans_sel, days, x_frac, ma, mb, b_in_hours, negative)| FoldCmp { zone_sel, trans_sel, days, x_frac, ma, mb, b_in_hours, negative })
+        .boxed()
+}
+
+fn test_fold_cmp(c: &FoldCmp, cx: &mut Cx) -> CaseResult {
+    let zs = zone_universe();
+    let z = zs[zones::pick(c.zone_sel, zs.len())].clone();
+    if z.probes.is_empty() {
+        cx.tolerate("zone-without-transitions");
+        return Ok(());
+    }
+    let t = z.probes[zones::pick(c.trans_sel, z.probes.len())];
+    let (ob, oa) = (z.rz.lookup(t - 1).off as i128, z.rz.lookup(t).off as i128);
+    let len = ob - oa;
+    if len <= 0 || len > 4 * 3600 {
+        cx.tolerate("not-a-fold");
+        return Ok(());
+    }
+    // wall clock of the fold window: [t + oa, t + ob); r's wall clock is that window (with half
+    // an hour of margin on both sides) `days` civil days earlier (later for negative spans)
+    let sgn: i128 = if c.negative { -1 } else { 1 };
+    let x = -1800 + ((len + 3600) * c.x_frac as i128 >> 16);
+    let r_local = (t as i128 + oa + x) * NS_PER_SEC - sgn * c.days as i128 * NS_PER_DAY;
+    let Ok(r) = rz::compatible(&z.rz, r_local) else {
+        cx.tolerate("reference-not-resolvable");
+        return Ok(());
+    };
+    if !rz::in_ts_range(r) {
+        cx.tolerate("reference-out-of-range");
+        return Ok(());
+    }
+    let mut ua = [0i64; 10];
+    ua[3] = c.days as i64;
+    ua[5] = c.ma as i64;
+    let mut ub = [0i64; 10];
+    if c.b_in_hours {
+        ub[4] = c.days as i64 * 24;
+    } else {
+        ub[3] = c.days as i64;
+    }
+    ub[5] = c.mb as i64;
+    let (sa, sb) = (SpanSpec { neg: c.negative, u: ua }, SpanSpec { neg: c.negative, u: ub });
+    let (fa, fb) = (spec_fields(&sa), spec_fields(&sb));
+    let rf = Ref::Zoned(z.clone(), r);
+    let (ea, eb) = match (rf.add(&parts(&fa)), rf.add(&parts(&fb))) {
+        (Ok(p), Ok(q)) => (p, q),
+        _ => {
+            cx.class("compare: reference + span out of range or undecided (no verdict)");
+            return Ok(());
+        }
+    };
+    let (la, lb) = (rz::local_of(&z.rz, ea).0, rz::local_of(&z.rz, eb).0);
+    let in_fold = |e: i128| (t as i128 - len) * NS_PER_SEC <= e && e < (t as i128 + len) * NS_PER_SEC;
+    cx.class_if(in_fold(ea) && in_fold(eb), "both end points in the repeated hour");
+    cx.class_if(ea.cmp(&eb) != la.cmp(&lb), "wall-clock order differs from instant order");
+    cx.nt_if(in_fold(ea) || in_fold(eb));
+    let zd = Timestamp::from_nanosecond(r).unwrap().to_zoned(z.tz.clone());
+    let (a, b) = (sa.to_span(), sb.to_span());
+    let what = format!("[{}] r = {zd}: {a:?}.compare({b:?})", z.label);
+    let got = a.compare((b, &zd)).map_err(|e| Failure::new("compare-spurious-error:relative=zoned", format!("{what}: {e}")))?;
+    let rev = b.compare((a, &zd)).map_err(|e| Failure::new("compare-spurious-error:relative=zoned", format!("{what} (reversed): {e}")))?;
+    let want = ea.cmp(&eb);
+    ensure!(got == want && rev == want.reverse(), "compare-differs:relative=zoned", "{what} = {got:?} (reversed: {rev:?}) but r + a is the instant {ea} and r + b the instant {eb} ({want:?})");
+    Ok(())
+}
+
 pub fn property() -> Property {
     Property {
         id: "C11",
@@ -1218,6 +1362,7 @@ pub fn property() -> Property {
             Box::new(Prop { name: "c11.total", quick: 2_000_000, thorough: 60_000_000, strategy: strat_case, test: test_total }),
             Box::new(Prop { name: "c11.compare", quick: 2_000_000, thorough: 60_000_000, strategy: strat_case, test: test_compare }),
             Box::new(Prop { name: "c11.duration", quick: 1_000_000, thorough: 30_000_000, strategy: strat_case, test: test_duration }),
+            Box::new(Prop { name: "c11.compare_fold", quick: 400_000, thorough: 10_000_000, strategy: strat_fold_cmp, test: test_fold_cmp }),
         ],
         floors: |rec| {
             rec.floor("c11.round:round: calendar unit is smallest or largest", "c11.round:cases", 0.25);
@@ -1227,6 +1372,8 @@ pub fn property() -> Property {
             rec.floor("c11.round:round: end point exactly half way to a neighbouring multiple", "c11.round:cases", 0.01);
             rec.floor("c11.total:total: calendar unit (window by search)", "c11.total:cases", 0.10);
             rec.floor("c11.compare:compare: equal end points from different fields", "c11.compare:cases", 0.01);
+            rec.floor("c11.compare_fold:wall-clock order differs from instant order", "c11.compare_fold:cases", 0.02);
+            rec.floor("c11.compare_fold:both end points in the repeated hour", "c11.compare_fold:cases", 0.05);
         },
     }
 }
